@@ -170,7 +170,7 @@ ConcD(d, i, a, req, vk) ==
          IN ("alfid_auto" :> m.auto) @@ ("alfid" :> m.alfid)
             @@ ("addrs" :> [j \in 1..cnt |-> av(j)]) @@ ("sizes" :> [j \in 1..cnt |-> sv(j)])
             @@ (IF req /\ a.kind = "WriteMemoryByAddress" THEN ("size_auto" :> a.sa) ELSE <<>>)
-    [] d.t = "rest" -> (d.n :> Rec(a.rl))
+    [] d.t = "rest" -> (d.n :> (IF vk.is THEN <<vk.iocp>> \o Rec(a.rl) ELSE Rec(a.rl)))
     [] d.t = "rest2" ->
          IF vk.is THEN (d.n1 :> (<<vk.iocp>> \o (IF vk.more THEN Rec(a.rl) ELSE <<>>))) @@ (d.n2 :> Rec(a.rl2))
          ELSE (d.n1 :> Rec(a.rl)) @@ (d.n2 :> Rec(a.rl2))
@@ -198,7 +198,7 @@ RECURSIVE ConcFrom(_, _, _, _, _)
 ConcFrom(L, i, a, req, vk) ==
   IF i > Len(L) THEN <<>> ELSE ConcD(L[i], i, a, req, vk) @@ ConcFrom(L, i + 1, a, req, vk)
 
-VarInfo(k, req) == IF req /\ k \in VariantKinds
+VarInfo(k, req) == IF k \in VariantKinds
                    THEN [is |-> TRUE, iocp |-> ReqVariant[k].iocp, more |-> ReqVariant[k].more]
                    ELSE [is |-> FALSE, iocp |-> 0, more |-> FALSE]
 Conc(a, L, req) == ConcFrom(L, 1, a, req, VarInfo(a.kind, req))
